@@ -1,8 +1,12 @@
 /-
   Props/C07.lean — Serving is total: any request runs exactly one chain, never a routing panic.
-  (the index-level no-panic theorems are added as the proof development proceeds; DESIGN.md §5/C07)
+
+  Two readings of the matcher exist: `Model/Tree` (segments; cannot express an index error) and
+  `Model/TreeIdx` (Go's string indexes `path`, `next`; every slice expression can panic).  The
+  theorems here say the second never panics and equals the first (lemmas: Proofs/TreeIdx.lean).
 -/
 import Flamego.Proofs.Assoc
+import Flamego.Proofs.TreeIdx
 
 namespace Flamego.C07
 
@@ -25,5 +29,101 @@ theorem unknown_method_not_found (E : Engine) (R : Router) (req : Request)
     ∃ o, R.serve E req = o ∧ (match o with | .notFound => True | _ => False) := by
   refine ⟨_, rfl, ?_⟩
   simp [Router.serve, Router.serveTreeOnly, h1, h2]
+
+/-! ### "any byte string as path … serving returns without the framework panicking" -/
+
+/-- The index-level `Tree.Match` (tree.go written over `path`, `next` with `path[next:]`,
+    `path[next:next+i]`, `path[next-1:]`) never takes a slice out of range: for every byte string
+    as path (empty, repeated or trailing slashes, non-UTF-8, any length), every tree (no invariant
+    on the tree needed), every regex engine and header verdict. -/
+theorem matchIdx_no_panic (E : Engine) (hok : Nat → Bool) (t : Node) (path : Bytes) :
+    Node.matchIdx E hok t path ≠ .error .sliceBounds := by
+  rw [Node.matchIdx_eq]; intro h; cases h
+
+/-- The index-level matcher computes exactly what the segment-level matcher computes (so whatever
+    is proved of `Node.match` — C01 C02 C08 C09 C10 — holds of the algorithm as written over string
+    indexes). -/
+theorem matchIdx_refines (E : Engine) (hok : Nat → Bool) (t : Node) (path : Bytes) :
+    Node.matchIdx E hok t path = .ok (t.match E hok path) :=
+  Node.matchIdx_eq E hok t path
+
+/-- The invariant behind `matchIdx_no_panic`, proved directly on the index-level functions (by
+    induction over their own call structure, without the segment model): started from a cursor
+    with `next ≤ len(path)`, `matchNextSegment` does not panic; started from a cursor with
+    `1 ≤ next ≤ len(path)` and `path[next-1] = '/'`, `matchSubtree` (which may evaluate
+    `path[next-1:]` in `matchAllLeaf.matchAll`) and `matchAllTree.matchAll` do not panic; and the
+    cursor every call passes on satisfies the callee's precondition (that is how the induction
+    hypotheses are obtained, see `matchIdx_safe_all`). -/
+theorem matchIdx_cursor_invariant (E : Engine) (hok : Nat → Bool) (path : Bytes) :
+    (∀ subs leaves next ps, next ≤ path.length →
+      ∀ e, matchNextIdx E hok subs leaves path next ps ≠ .error e) ∧
+    (∀ subs leaves segment next ps, 1 ≤ next → next ≤ path.length → path[next - 1]? = some slash →
+      ∀ e, matchSubsIdx E hok subs leaves path segment next ps ≠ .error e) ∧
+    (∀ csubs cleaves b cap captured segment next ps,
+      1 ≤ next → next ≤ path.length → path[next - 1]? = some slash →
+      ∀ e, matchAllLoopIdx E hok csubs cleaves b cap captured path segment next ps ≠ .error e) ∧
+    (∀ leaves segment next ps, 1 ≤ next → next ≤ path.length → path[next - 1]? = some slash →
+      ∀ e, matchAllLeafIdx hok leaves path segment next ps ≠ .error e) := by
+  obtain ⟨h1, h2, h3⟩ := matchIdx_safe_all E hok path
+  refine ⟨fun subs leaves next ps hn => h1 subs leaves next ps hn,
+    fun subs leaves segment next ps a b c => h2 subs leaves segment next ps (CursorS.of_byte a b c),
+    fun csubs cleaves b cap captured segment next ps a b' c =>
+      h3 csubs cleaves b cap captured segment next ps (CursorS.of_byte a b' c),
+    fun leaves segment next ps a b c =>
+      matchAllLeafIdx_safe hok leaves path segment next ps (CursorS.of_byte a b c)⟩
+
+/-- The same for a whole request: `ServeHTTP` with the tree searched at the index level returns
+    (no panic) the outcome of the segment-level `serve`, for any method token, path and headers. -/
+theorem serveIdx_no_panic (E : Engine) (R : Router) (req : Request) :
+    R.serveIdx E req = .ok (R.serve E req) :=
+  Router.serveIdx_eq E R req
+
+/-! ### "the outcome is a function of the registered routes and the request alone" -/
+
+/-- Repeating a request: two evaluations with equal router state and equal request give equal
+    outcomes.  (Trivial — `serve` is a function; kept because the property states it.) -/
+theorem serve_deterministic (E : Engine) (R1 R2 : Router) (q1 q2 : Request)
+    (hR : R1 = R2) (hq : q1 = q2) : R1.serve E q1 = R2.serve E q2 := by
+  rw [hR, hq]
+
+/-- Frame: the outcome depends on the router only through the route trees, the fast-path table and
+    the header constraints — not on the name table or the registration handles. -/
+theorem serve_frame (E : Engine) (R R' : Router) (req : Request)
+    (ht : R.trees = R'.trees) (hs : R.statics = R'.statics) (hh : R.hdrs = R'.hdrs) :
+    R.serve E req = R'.serve E req := by
+  have hhok : R.hok E req.hdrs = R'.hok E req.hdrs := by
+    funext hid; simp only [Router.hok, hh]
+  simp only [Router.serve, Router.serveTreeOnly, ht, hs, hhok]
+
+/-- in particular `Name(...)` and anything else that only touches `named` / `handles` -/
+theorem serve_frame_named_handles (E : Engine) (R : Router) (req : Request)
+    (named : List (Bytes × Route)) (handles : List (Nat × List (String × Leaf))) :
+    ({ R with named := named, handles := handles }).serve E req = R.serve E req :=
+  serve_frame E _ R req rfl rfl rfl
+
+/-! ### non-vacuity: the index-level model *can* panic where the invariant fails, and matches a
+    real multi-segment path through every slicing line where it holds -/
+
+/-- `path[next:]` with `next > len(path)` is a panic in the model -/
+example (E : Engine) (hok : Nat → Bool) :
+    matchNextIdx E hok [] [] [97] 2 [] = .error .sliceBounds := by
+  rw [matchNextIdx]; rfl
+
+/-- `path[next-1:]` with `next = 0` (Go: `path[-1:]`) is a panic in the model -/
+example (hok : Nat → Bool) (r : Route) :
+    matchAllLeafIdx hok [⟨[], .all [120] 2, 0, r, true, false⟩] [97] [97] 0 [] = .error .sliceBounds := by
+  rfl
+
+/-- the tree of `/a/{x: **, capture: 2}`-like shape (a static subtree `a` without children and a
+    match-all leaf on the root) on the path `//a/b`: TrimLeft, `Index`, both slices, the fall-back
+    with `path[next-1:]` and `Count` all run, and `x = "a/b"` is captured -/
+example (E : Engine) (r : Route) :
+    Node.matchIdx E (fun _ => true)
+      (.mk [] (.static []) [.mk [47, 97] (.static [97]) [] []] [⟨[], .all [120] 2, 7, r, true, false⟩])
+      [47, 47, 97, 47, 98]
+    = .ok (some (⟨[], .all [120] 2, 7, r, true, false⟩, [([120], [97, 47, 98])])) := by
+  simp [Node.matchIdx, trimLeftSlash, slash, Node.subs, Node.leaves, matchNextIdx, matchSubsIdx,
+    matchAllLeafIdx, matchLeavesIdx, matchLeaves, treeMatch, sliceFrom, slice, sliceFromPred,
+    indexSlash, countSlash, Params.set, pathUnescapeOrRaw, pathUnescape, pct]
 
 end Flamego.C07
